@@ -33,6 +33,7 @@ type Program struct {
 	// callee edges per call instruction (module-internal callees only)
 	calleesOf map[ssa.CallInstruction][]*ssa.Function
 	PkgByName map[string]*ssa.Package
+	bigConsts map[*ssa.Global]*int64
 }
 
 // shortPkg maps an import path of the module to its short name.
